@@ -105,13 +105,16 @@ def analyse(W: int, mf: int, res: Dict[str, Any], out: Outcome, want: str) -> Di
         elif k == "terminate":
             stt = state[e[2]]
             stt["terminated"] = True
-            stt["alive"] = False
+            stt["alive"] = e[4] in ("alive", "terminating")
+        elif k == "exit":
+            state[e[2]]["alive"] = False
         elif k == "join":
             stt = state[e[2]]
-            if e[3] == "alive" and want == "C17":
+            if e[3] == "alive" and e[5] is None and want == "C17":
                 out.add("C17.b", f"tick {tick}: join() on live process {e[2]} of slot {e[1]} (would block forever)")
             stt["joined"] = True
-            if stt["terminated"]:
+            stt["alive"] = e[4] in ("alive", "terminating")
+            if stt["terminated"] and not stt["alive"]:
                 stt["joined_after_terminate"] = True
         elif k == "kill":
             kills.append((pos, e[1], e[2], e[3]))
@@ -214,6 +217,7 @@ def histories(max_ticks: int = 40) -> Any:
         "W": st.just(W), "mf": st.sampled_from(list(MF) + [5, 8]),
         "h": st.lists(tick(W), min_size=3, max_size=max_ticks),
         "sd": st.lists(st.integers(0, 12), max_size=3, unique=True).map(sorted),
+        "slow": st.one_of(st.just([]), st.lists(st.tuples(st.integers(0, 8), st.sampled_from([2.0, 8.0, 30.0])).map(list), max_size=4, unique_by=lambda x: x[0])),
     }))
 
 
@@ -235,6 +239,8 @@ def classify(case: Dict[str, Any], res: Dict[str, Any], an: Dict[str, Any]) -> L
         cl.append("startup_death")
     if has_mid(case):
         cl.append("mid_tick_signal")
+    if case.get("slow"):
+        cl.append("slow_shutdown_worker")
     return cl
 
 
